@@ -42,6 +42,14 @@ F2b == { Case("F2", <<Rule("start", Cat(Cat(Cat(Un(o1, p[1]), Un(o2, p[1])), Un(
        \cup { Case("F2", <<Rule("start", Cat(Un(o1, p[1]), Un(o2, p[1]))), Rule("x", Cat(Un(o1, p[2]), Un(o2, p[2])))>>) :
            o1 \in UnaryOps, o2 \in UnaryOps, p \in { q \in Pairs : q[1] # X /\ q[2] # X } }
 
+\* the same sub-expression under two operators in two unrelated, unambiguous contexts (a wrongly shared generated
+\* non-terminal then changes the language without making the grammar ambiguous):  start = "c" o1(s) | "b" o2(s) "c"
+NoX == { s \in Shared : s # X }
+F2c == { Case("F2", <<Rule("start", Alt(Cat(C, Un(o1, s)), Cat(Cat(B, NT("y")), C))), Rule("y", Un(o2, s)), XRule>>) :
+           o1 \in UnaryOps, o2 \in UnaryOps, s \in NoX }
+       \cup { Case("F2", <<Rule("start", Alt(Cat(C, Un(o1, s)), Cat(Cat(B, Un(o2, s)), C))), XRule>>) :
+           o1 \in UnaryOps, o2 \in UnaryOps, s \in NoX }
+
 Suffix(op) == CASE op = "grp" -> "group" [] op = "opt" -> "opt" [] op = "star" -> "star" [] op = "plus" -> "plus"
 F3 == UNION { {
         \* a string terminal with a spelled-out name and a rule of that name under the same operator
@@ -77,7 +85,7 @@ D6 == << Tok("AA", "str", "x"), Tok("BB", "pat", "[0-9]+"), Tok("CC", "pre", "$I
 Orders6 == { <<1, 2, 3, 4, 5, 6, 7>>, <<7, 6, 5, 4, 3, 2, 1>>, <<4, 1, 5, 2, 6, 3, 7>>, <<5, 6, 4, 7, 1, 2, 3>>, <<4>>, <<1>>, <<5>>, <<6, 1>> }
 F6 == { Case("F6", <<>>) } \cup { Case("F6", [j \in 1..Len(o) |-> D6[o[j]]]) : o \in Orders6 }
 
-All == F1 \cup F2 \cup F2b \cup F3 \cup F4 \cup F6
+All == F1 \cup F2 \cup F2b \cup F2c \cup F3 \cup F4 \cup F6
 ASSUME /\ ndJsonSerialize("gen_specs.ndjson", SetToSeq(All))
-       /\ PrintT(<<"GENERATED", Cardinality(All), "F1", Cardinality(F1), "F2", Cardinality(F2) + Cardinality(F2b), "F3", Cardinality(F3), "F4", Cardinality(F4)>>)
+       /\ PrintT(<<"GENERATED", Cardinality(All), "F1", Cardinality(F1), "F2", Cardinality(F2) + Cardinality(F2b) + Cardinality(F2c), "F3", Cardinality(F3), "F4", Cardinality(F4)>>)
 =============================================================================
